@@ -169,6 +169,65 @@ func (c *Ctx) loopProgressRule(rule string, fns []*ssa.Function, sweep func(f *s
 				}
 			}
 			if !decided {
+				// (f) remainder loops over encoding/pem: the loop variable is the `rest` result of pem.Decode applied to
+				// itself. pem.Decode returns its input unchanged when it finds no block, so the iteration consumed
+				// something only if the block result is non-nil: every back edge must lie on that edge.
+				for _, in := range L.Header.Instrs {
+					phi, ok := in.(*ssa.Phi)
+					if !ok {
+						break
+					}
+					if _, isSlice := phi.Type().Underlying().(*types.Slice); !isSlice {
+						continue
+					}
+					n, okAll := 0, true
+					for i, e := range phi.Edges {
+						pred := L.Header.Preds[i]
+						if !L.Body[pred] {
+							continue
+						}
+						ex, ok := e.(*ssa.Extract)
+						if !ok || ex.Index != 1 {
+							n = 0
+							break
+						}
+						call, ok := ex.Tuple.(*ssa.Call)
+						if !ok || call.Call.StaticCallee() == nil || call.Call.StaticCallee().String() != "encoding/pem.Decode" {
+							n = 0
+							break
+						}
+						n++
+						nonNil := false
+						for _, cf := range append(dominatingConds(pred), edgeCond(pred, L.Header)...) {
+							bo, ok := cf.Cond.(*ssa.BinOp)
+							if !ok || (bo.Op != token.NEQ && bo.Op != token.EQL) {
+								continue
+							}
+							k, isK := bo.Y.(*ssa.Const)
+							if !isK || !k.IsNil() {
+								continue
+							}
+							bx, ok := bo.X.(*ssa.Extract)
+							if !ok || bx.Tuple != ssa.Value(call) || bx.Index != 0 {
+								continue
+							}
+							if (bo.Op == token.NEQ) == cf.Val {
+								nonNil = true
+							}
+						}
+						if !nonNil {
+							okAll = false
+						}
+					}
+					if n > 0 {
+						decided = true
+						c.S.Check(okAll, rule, name, c.pos(pos), "remainder loop over pem.Decode: goes round only where a block was found",
+							"the loop replaces its input by the remainder pem.Decode returns and goes round where no block was found: pem.Decode then returns its input unchanged, so trailing non-PEM bytes repeat the iteration for ever")
+						break
+					}
+				}
+			}
+			if !decided {
 				// a shape none of the classes recognises: recorded, not an alarm (progress may rest on facts a
 				// helper establishes, which this rule does not follow)
 				nUnclassified++
